@@ -327,3 +327,23 @@ package keeper
 // verif:func (Keeper).balanceOf
 //@ modifies world(ctx)
 //@ callsite CallEVM [a-balance-query] method == "balanceOf" && from == types.ModuleAddress && dollar_contract == contract && len(args) == 1 && as(args[0], common.Address) == account
+
+// ---- binding a token to its origin (C03: what the destination has minted for an origin is never reset while the
+// tokens are out) ----
+// the endpoint contract's record (origin token, minted amount, bound) for a token and origin chain
+// verif:func (Keeper).QueryERC20Trace
+//@ modifies evm(ctx)
+//@ modifies bank(ctx)
+//@ modifies supply(ctx)
+//@ modifies auth(ctx)
+
+// bindToken resets the minted amount of the binding, so it is called only for a token that is not bound for that
+// origin chain or has nothing minted
+// verif:func (Keeper).RegisterERC20Trace
+//@ modifies evm(ctx)
+//@ modifies bank(ctx)
+//@ modifies supply(ctx)
+//@ modifies auth(ctx)
+//@ callsite QueryERC20Trace [this-token-this-origin] erc20Address == contract && dollar_originChain == originChain
+//@ callsite AddERC20TraceToTransferContract [not-while-tokens-are-out] ncalls("QueryERC20Trace") == 1 && callsok("QueryERC20Trace") && (!callres("QueryERC20Trace", 2) || callres("QueryERC20Trace", 1) == nil || *callres("QueryERC20Trace", 1) == 0)
+//@ callsite AddERC20TraceToTransferContract [as-proposed] dollar_contract == contract && dollar_originToken == originToken && dollar_originChain == originChain && dollar_scale == scale
